@@ -116,10 +116,33 @@ def answer (line : String) : String :=
     let c : DsCfg String DT := ⟨pTable cfgF, pTable dsF, pRen eRen, pRen mRen, pList id keep, pConv conv,
       if exc == "*" then none else some (pList id exc)⟩
     let table := if tidy == "cfg" then c.cfgFields else c.merged
-    match loadAndPrepareWith table (pStages st) (loader fmt (pMode mode) (pN bs) fs) (prepRun (pPrep prep)) c
-        (List.range ef.length) ((List.range mf.length).map (· + ef.length)) (pB lt) with
-    | .ok (e, m) => s!"ok exp={fOpt e} mc={fOpt m}"
-    | .error e => "err " ++ fErr e
+    let ld := loader fmt (pMode mode) (pN bs) fs
+    let ep := List.range ef.length
+    let mp := (List.range mf.length).map (· + ef.length)
+    -- which branch of load_and_prepare_data the case takes (coverage bookkeeping of the harness)
+    let trace : String := match loadData (pStages st) ld c ep mp with
+      | .error _ => "load"
+      | .ok d => match prepRun (pPrep prep) d with
+        | .error _ => "prep"
+        | .ok (e, m) =>
+          let e' := tidyOpt (jointNames table (pStages st).anExp ++ c.keep) e
+          let m' := tidyOpt (jointNames table ((pStages st).anExp ||| (pStages st).anMc) ++ c.keep) m
+          let cnt : Option A → Nat := fun x => match x with
+            | none => 0
+            | some a => a.cols.length
+          let removed := if cnt e + cnt m > cnt e' + cnt m' then "removes" else "keeps-all"
+          let missE : Bool := match e' with
+            | none => false
+            | some a => !(missingKeys (a.cols.map (·.name)) (jointNames table (pStages st).anExp)).isEmpty
+          let missM : Bool := match m' with
+            | none => false
+            | some a => !(missingKeys (a.cols.map (·.name))
+                (jointNames table ((pStages st).anExp ||| (pStages st).anMc))).isEmpty
+          removed ++ "," ++ (if missE then "missing-exp" else if missM then "missing-mc"
+            else if !(pB lt) then "noLivetime" else "ok")
+    match loadAndPrepareWith table (pStages st) ld (prepRun (pPrep prep)) c ep mp (pB lt) with
+    | .ok (e, m) => s!"ok exp={fOpt e} mc={fOpt m} trace={trace}"
+    | .error e => "err " ++ fErr e ++ " trace=" ++ trace
   | ["dss", fmt, mode, bs, st, cfgF, dsF, eRen, mRen, keep, conv, exc, prep, lt, eFiles, mFiles] =>
     -- one load of a history on a shared Config: post-state of cfg['datafields'] + the result
     let ef := pFiles eFiles
